@@ -27,6 +27,7 @@ def gen(rng, tier, open_keys):
     out += [D.gen_case(rng, MIX2) for _ in range(n // 2)]
     out += [D.gen_shape(rng) for _ in range(n // 3)]
     out += [D.gen_opts(rng) for _ in range(60 if tier == "quick" else 600)]
+    out += [D.gen_stress(rng, tier) for _ in range(12 if tier == "quick" else 60)]
     return out
 
 
